@@ -130,6 +130,57 @@ def pvtkMergeField {α} (isPoint : Bool) (extents : List (List Int)) (pieceValue
   let sd := structuredDecomposition extents
   mergeStructured isPoint sd.mergerDecomposition (fun loc => pieceValues.getD (sd.domainId loc) []) zero
 
+/-! ### `PVTRReader._make_structured_mesh`: assembling the ordinates (findings F14, F15 live here) -/
+
+/-- numpy `a[off : off + len(po)] = po`: the slice is clipped to `a`; a one-element right-hand side
+    broadcasts, any other length must match the clipped slice exactly (`none` = ValueError) -/
+def sliceAssign (a : List Int) (off : Nat) (po : List Int) : Option (List Int) :=
+  let stop := min (off + po.length) a.length
+  let start := min off a.length
+  if po.length = 1 then
+    some (a.take start ++ List.replicate (stop - start) (po.getD 0 0) ++ a.drop stop)
+  else if stop - start = po.length then some (a.take start ++ po ++ a.drop stop)
+  else none
+
+/-- the inner loop over the pieces along one direction: `consulted` = ordinates of the piece
+    consulted for position 0, 1, … ; `index_offset += num_ordinates - 1` -/
+def assembleLineGo : List Int → Nat → List (List Int) → Option (List Int)
+  | line, _, [] => some line
+  | line, off, po :: r =>
+    match sliceAssign line off po with
+    | some l => assembleLineGo l (off + po.length - 1) r
+    | none => none
+
+def assembleLine (init : List Int) (consulted : List (List Int)) : Option (List Int) :=
+  assembleLineGo init 0 consulted
+
+def StructuredDecomposition.orderShape (sd : StructuredDecomposition) : List Nat :=
+  sd.meshedDimensions.map fun dir => (sd.cellsPerAxis.getD dir []).length
+
+/-- `order[location]` with numpy bounds checking (`none` = IndexError) -/
+def StructuredDecomposition.domainIdChecked (sd : StructuredDecomposition) (loc : List Nat) : Option Nat :=
+  if loc.length = sd.orderShape.length ∧ (List.zipWith (fun i n => decide (i < n)) loc sd.orderShape).all id
+  then some (sd.domainId loc) else none
+
+/-- `domain_location = tuple(i if k == direction else 0 for k in range(decomposition.dimension()))`
+    — `k` runs over POSITIONS among the meshed directions but is compared with the VTK DIRECTION
+    (finding F14: wrong as soon as a flat direction precedes a meshed one) -/
+def pvtrDomainLocation (sd : StructuredDecomposition) (dir i : Nat) : List Nat :=
+  (List.range sd.meshedDimensions.length).map fun k => if k = dir then i else 0
+
+/-- ordinates of the merged rectilinear grid; `pieceOrds[piece][direction]`.  Flat directions keep
+    the zero initialisation (finding F15). -/
+def pvtrOrdinates (sd : StructuredDecomposition) (pieceOrds : List (List (List Int))) : Option (List (List Int)) :=
+  let init := (List.range 3).map fun dir =>
+    List.replicate ((sd.mergedExtents.getD dir 0).toNat + 1) (0 : Int)
+  sd.meshedDimensions.foldlM (fun ords dir => do
+    let n := (sd.cellsPerAxis.getD dir []).length
+    let consulted ← (List.range n).mapM fun i => do
+      let id ← sd.domainIdChecked (pvtrDomainLocation sd dir i)
+      pure ((pieceOrds.getD id []).getD dir [])
+    let line ← assembleLine (ords.getD dir []) consulted
+    pure (ords.set dir line)) init
+
 /-! ### what an axis-aligned decomposition looks like (used by spec and generators) -/
 
 /-- the `Extent` of the piece at `loc` in an axis-aligned decomposition `d3` of all three VTK
